@@ -38,7 +38,9 @@ def impl(case):
                 if v.get('thr') is not None:
                     kw['amplitude_threshold'] = v['thr']
                 if v.get('explicit') is not None:
-                    kw['channel_ids'] = np.array(v['explicit'], dtype=np.int64)
+                    ek = v.get('ekind', 'int64')      # how the caller hands over the explicit channel list
+                    kw['channel_ids'] = (list(v['explicit']) if ek == 'list' else tuple(v['explicit']) if ek == 'tuple'
+                                         else np.array(v['explicit'], dtype=ek))
                 try:
                     b = m.get_template(v['t'], **kw)
                     r = _rec(b)
@@ -141,7 +143,7 @@ def tally(rep, case, impl_res, ans):
     rep.count('records', len(case['variants']))
     for v in case['variants']:
         if v.get('explicit') is not None:
-            rep.count('explicit_list')
+            rep.count('explicit_list:' + v.get('ekind', 'int64'))
         rep.count('unwhiten:%s' % v['unwhiten'])
     if 'ok' in ans:
         for m in ans['ok']['res']:
@@ -203,7 +205,8 @@ def gen(tier, rng):
         for t in range(nt):
             variants.append(dict(t=t, unwhiten=True, accessors=True))
             variants.append(dict(t=t, unwhiten=rng.random() < .5, thr=rng.pick([0, .25, .5, 1.])))
-            variants.append(dict(t=t, unwhiten=rng.random() < .5, explicit=rng.sample(range(nc), rng.randrange(1, nc + 1))))
+            variants.append(dict(t=t, unwhiten=rng.random() < .5, explicit=rng.sample(range(nc), rng.randrange(1, nc + 1)),
+                                 ekind=rng.pick(['int64', 'list', 'uint32', 'int32', 'tuple'])))
         # probe coordinates stored as floats or as (un)signed integers: the geometry is the same
         pdt = rng.pick(['float64', 'float64', 'float32', 'int32', 'int64', 'uint32', 'uint64', 'uint16'])
         spec.setdefault('dtypes', {})
